@@ -120,7 +120,7 @@ def run(ctx):
             continue
         bad = tree_calls(b, r"OsStr::to_str$", r"to_string_lossy$", r"Display>?::fmt$", r"ToString>?::to_string$", r"str::from_utf8", r"to_lowercase|to_uppercase|to_ascii")
         res.check(not bad, "R14.2", "bytes-only|" + b.q, b.where(), "no text conversion in %s" % name, "%s converts the OS string to text (%s): result differs from the byte-level operation" % (name, bad[0].callee_q if bad else ""))
-    for fn_, need in (("find", [r"as_encoded_bytes$", r"checked_sub$"]), ("starts_with", [r"as_encoded_bytes$", r"str::as_bytes$", r"\[T\]::starts_with$"]),
+    for fn_, need in (("find", [r"as_encoded_bytes$"]), ("starts_with", [r"as_encoded_bytes$", r"str::as_bytes$", r"\[T\]::starts_with$"]),
                       ("strip_prefix", [r"as_encoded_bytes$", r"str::as_bytes$", r"\[T\]::strip_prefix$"]), ("contains", [r"OsStrExt>?::find$"]),
                       ("split_once", [r"OsStrExt>?::find$", r"as_encoded_bytes$", r"str::len$"])):
         b = fx.body("<std::ffi::os_str::OsStr as clap_lex::ext::OsStrExt>::" + fn_)
